@@ -27,7 +27,7 @@ from .errors import (
     UnsetMetadataError,
 )
 from .MetadataKey import MetadataKey
-from .NamedObject import NamedObject
+from .NamedObject import NamedObject, ParamTreeNode
 from .Placeholder import Placeholder
 
 
